@@ -16,6 +16,8 @@ pub enum ElemKind {
     Tr = 0,
     Zt = 1,
     Pl = 2,
+    /// tracked like Tr, but 32 bytes with 32-byte alignment (layout-sensitive paths)
+    Al = 3,
 }
 impl ElemKind {
     pub fn name(self) -> &'static str {
@@ -23,6 +25,7 @@ impl ElemKind {
             ElemKind::Tr => "Tr",
             ElemKind::Zt => "Zt",
             ElemKind::Pl => "Pl",
+            ElemKind::Al => "Al",
         }
     }
     pub fn from_name(s: &str) -> Option<ElemKind> {
@@ -30,6 +33,7 @@ impl ElemKind {
             "Tr" => ElemKind::Tr,
             "Zt" => ElemKind::Zt,
             "Pl" => ElemKind::Pl,
+            "Al" => ElemKind::Al,
             _ => return None,
         })
     }
@@ -347,5 +351,58 @@ impl<'de> Deserialize<'de> for Pl {
         let p = Pl::fresh();
         ledger::note_clone(v, p.id);
         Ok(p)
+    }
+}
+
+// ---------------------------------------------------------------------------
+
+/// Over-aligned tracked element: a `Tr` in a 32-byte, 32-byte-aligned shell. All bookkeeping
+/// (ledger, seams, canary, payload) is the inner element's.
+#[repr(C, align(32))]
+pub struct Al(Tr);
+
+impl Clone for Al {
+    fn clone(&self) -> Al {
+        Al(self.0.clone())
+    }
+}
+impl Default for Al {
+    fn default() -> Al {
+        Al(Tr::default())
+    }
+}
+impl Elem for Al {
+    const KIND: ElemKind = ElemKind::Al;
+    const TRACKED: bool = true;
+    const HAS_ID: bool = true;
+    fn make() -> Al {
+        Al(Tr::make())
+    }
+    fn observe(&self, site: u32) -> u32 {
+        if (self as *const Al as usize) % 32 != 0 {
+            ledger::violate("I2-garbage-observed", format!("an over-aligned element was handed out at a misaligned address (site {site})"));
+        }
+        self.0.observe(site)
+    }
+    fn walk(&self) -> u32 {
+        self.0.walk()
+    }
+    fn debug_of(id: u32) -> String {
+        format!("#{id}")
+    }
+}
+impl std::fmt::Debug for Al {
+    fn fmt(&self, f: &mut std::fmt::Formatter) -> std::fmt::Result {
+        self.0.fmt(f)
+    }
+}
+impl Serialize for Al {
+    fn serialize<S: Serializer>(&self, s: S) -> Result<S::Ok, S::Error> {
+        self.0.serialize(s)
+    }
+}
+impl<'de> Deserialize<'de> for Al {
+    fn deserialize<D: Deserializer<'de>>(d: D) -> Result<Al, D::Error> {
+        Tr::deserialize(d).map(Al)
     }
 }
